@@ -692,6 +692,21 @@ pub fn run(_params: &Params) {
             moves.push("kb_iat_in_milliseconds");
           }
         }
+        11 if ctx::choose(3) == 0 => {
+          // a Byzantine holder writes a kid that ends in a percent-encoded octet (legal DID URL syntax): it names no
+          // method of the holder document
+          let kid = match ctx::choose(3) {
+            0 => format!("{}%41", holder.did),
+            1 => "did:sim:abc%20".to_owned(),
+            _ => format!("{}%2Fx#{kb_frag}", holder.did),
+          };
+          let o = JwsSignatureOptions::default().typ(KeyBindingJwtClaims::KB_JWT_HEADER_TYP.to_owned()).kid(kid);
+          if let Ok(k) = sign_raw(holder, kb_frag, kb_payload.as_bytes(), &o) {
+            kb = k;
+            ctx::stat("fault.adversary.kb_kid_ending_in_percent_encoded_octet");
+            moves.push("kb_kid_percent_octet");
+          }
+        }
         10 | 11 if foreign_refs[hi].is_some() => {
           // a Byzantine holder signs with its general-purpose #alt key but names the foreign method its document
           // merely refers to: that id is not key material of the holder document
